@@ -1241,6 +1241,17 @@ func (c *ctx) rCall(call *ast.CallExpr, cur string) error {
 	if !ok {
 		return unk("reader: call %s", exprStr(call))
 	}
+	// in.CheckCount(n, minBytes): a guard on the count just read, before the loop it drives — it only
+	// rejects counts the remaining bytes cannot satisfy (io.DataInputX.CheckCount); no bytes are consumed
+	if _, ok := c.streamOf(sel.X); ok && sel.Sel.Name == "CheckCount" && len(call.Args) == 2 {
+		x, _ := stripConv(call.Args[0])
+		if id, ok := x.(*ast.Ident); ok && c.pending != nil && c.pending.local == id.Name {
+			if _, ok := intLit(call.Args[1]); ok {
+				return nil
+			}
+		}
+		return unk("reader: %s does not guard the count read just before", exprStr(call))
+	}
 	if len(call.Args) == 1 {
 		if st, ok := c.streamOf(call.Args[0]); ok && sel.Sel.Name == "Read" {
 			if c.pending != nil {
